@@ -1057,4 +1057,37 @@ theorem nodupCids_iff (l : List Pin) : nodupCids l = true ↔ (l.map (·.cid)).N
       obtain ⟨q, hq, hc⟩ := hany
       exact h1 q hq (by simpa using hc)
 
+/-! ### file shapes -/
+
+theorem loadShaped_eq_validLines (sh : FileShape) (file : List FLine) : loadShaped sh file = validLines sh file := by
+  unfold loadShaped
+  cases file with
+  | nil => cases sh.bom <;> rfl
+  | cons fl t =>
+    cases hb : sh.bom
+    · simp only [Bool.false_eq_true, if_false, validLines, hb, Bool.not_false, Bool.and_true, List.filter_cons]
+      by_cases hp : fl.parses = true
+      · have : (fl.l.loads && decide (fl.cr ≤ 1)) = true := hp
+        simp only [hp, this, if_true, List.map_cons, List.singleton_append]
+        rfl
+      · have : ¬ (fl.l.loads && decide (fl.cr ≤ 1)) = true := hp
+        simp only [hp, this, Bool.false_eq_true, if_false, List.nil_append]
+        rfl
+    · simp only [if_true, List.drop_succ_cons, List.drop_zero, validLines, hb, Bool.not_true, Bool.and_false,
+        Bool.false_eq_true, if_false, List.nil_append]
+      rfl
+
+theorem validLines_plain (file : List Line) :
+    validLines { finalNewline := true, bom := false } (file.map (fun l => (⟨l, 0⟩ : FLine))) = file.filter Line.loads := by
+  cases file with
+  | nil => rfl
+  | cons x t =>
+    simp only [List.map_cons, validLines, Bool.not_false, Bool.and_true, Nat.zero_le, decide_true, List.filter_cons]
+    have ht : ((t.map (fun l => (⟨l, 0⟩ : FLine))).filter (fun x => x.l.loads && decide (x.cr ≤ 1))).map (·.l) = t.filter Line.loads := by
+      induction t with
+      | nil => rfl
+      | cons y t' ih => cases hy : y.loads <;> simp_all [List.filter_cons]
+    rw [ht]
+    cases hx : x.loads <;> simp
+
 end CV.C14
